@@ -32,6 +32,7 @@ func newNativeKeepers(e *Env) (authkeeper.AccountKeeper, bankkeeper.Keeper) {
 	banktypes.RegisterInterfaces(ir)
 	cdc := codec.NewProtoCodec(ir)
 	model.NativeCodec = cdc
+	model.NativeJSONCodec = cdc
 	prefix := sdk.GetConfig().GetBech32AccountAddrPrefix()
 	ak := authkeeper.NewAccountKeeper(cdc, runtime.NewKVStoreService(model.AuthKey), authtypes.ProtoBaseAccount,
 		model.MaccPerms, addresscodec.NewBech32Codec(prefix), prefix, authority.String())
